@@ -131,7 +131,12 @@ Fixpoint parse_fuel (fuel : nat) (b : list Z) : option (list (Z * list Z)) :=
 Definition parse (b : list Z) : option (list (Z * list Z)) := parse_fuel (length b) b.
 Definition idval (p : param) : Z * list Z := (pid p, pval p).
 
-(** ** internal/wire/u_transport_parameters.go: PopulateFromUQUIC *)
+(** ** internal/wire/u_transport_parameters.go: PopulateFromUQUIC
+    (as rewritten by /repo 7263726, fixes/C12-record-every-advertised-parameter.patch: the record
+    starts from the protocol defaults a peer assumes for parameters the list leaves out, and
+    every integer parameter is read BY ID from the value that goes on the wire, whatever Go
+    type carries it; a value that is not exactly one varint is skipped; durations saturate;
+    max_udp_payload_size and ack_delay_exponent are recorded too) *)
 Record view := View {
   vMaxIdleTimeout : Z;          (* time.Duration, ns *)
   vInitialMaxData : Z;
@@ -141,40 +146,49 @@ Record view := View {
   vDisableActiveMigration : bool;
   vActiveConnectionIDLimit : Z;
   vInitialSourceConnectionID : list Z;
-  vMaxDatagramFrameSize : Z }.
+  vMaxDatagramFrameSize : Z;
+  vMaxUDPPayloadSize : Z;
+  vAckDelayExponent : Z }.
 
-Definition wrap64 (x : Z) : Z := (x + 2 ^ 63) mod 2 ^ 64 - 2 ^ 63.    (* int64 arithmetic *)
-Definition millis (v : Z) : Z := wrap64 (v * 1000000).            (* time.Duration(v) * time.Millisecond *)
-(* the number a typed uTLS parameter holds: its Value() is quicvarint.Append(v) *)
-Definition tval (p : param) : Z := match vparse (pval p) with inr (v, _, _) => v | inl _ => 0 end.
+Definition maxInt64 : Z := 2 ^ 63 - 1.
+(* duration(v, time.Millisecond): saturates instead of wrapping around *)
+Definition millis (v : Z) : Z := if maxInt64 / 1000000 <? v then maxInt64 else v * 1000000.
+(* numeric(param): the value is exactly one varint *)
+Definition is_single (b : list Z) : bool :=
+  match vparse b with inr (_, n, _) => n =? zlen b | inl _ => false end.
+Definition sval (b : list Z) : Z := match vparse b with inr (v, _, _) => v | inl _ => 0 end.
 
-Definition set_idle v x := View x (vInitialMaxData v) (vBidiLocal v) (vBidiRemote v) (vUni v) (vMaxBidiStreamNum v) (vMaxUniStreamNum v) (vMaxAckDelay v) (vDisableActiveMigration v) (vActiveConnectionIDLimit v) (vInitialSourceConnectionID v) (vMaxDatagramFrameSize v).
-Definition set_data v x := View (vMaxIdleTimeout v) x (vBidiLocal v) (vBidiRemote v) (vUni v) (vMaxBidiStreamNum v) (vMaxUniStreamNum v) (vMaxAckDelay v) (vDisableActiveMigration v) (vActiveConnectionIDLimit v) (vInitialSourceConnectionID v) (vMaxDatagramFrameSize v).
-Definition set_bl v x := View (vMaxIdleTimeout v) (vInitialMaxData v) x (vBidiRemote v) (vUni v) (vMaxBidiStreamNum v) (vMaxUniStreamNum v) (vMaxAckDelay v) (vDisableActiveMigration v) (vActiveConnectionIDLimit v) (vInitialSourceConnectionID v) (vMaxDatagramFrameSize v).
-Definition set_br v x := View (vMaxIdleTimeout v) (vInitialMaxData v) (vBidiLocal v) x (vUni v) (vMaxBidiStreamNum v) (vMaxUniStreamNum v) (vMaxAckDelay v) (vDisableActiveMigration v) (vActiveConnectionIDLimit v) (vInitialSourceConnectionID v) (vMaxDatagramFrameSize v).
-Definition set_uni v x := View (vMaxIdleTimeout v) (vInitialMaxData v) (vBidiLocal v) (vBidiRemote v) x (vMaxBidiStreamNum v) (vMaxUniStreamNum v) (vMaxAckDelay v) (vDisableActiveMigration v) (vActiveConnectionIDLimit v) (vInitialSourceConnectionID v) (vMaxDatagramFrameSize v).
-Definition set_mb v x := View (vMaxIdleTimeout v) (vInitialMaxData v) (vBidiLocal v) (vBidiRemote v) (vUni v) x (vMaxUniStreamNum v) (vMaxAckDelay v) (vDisableActiveMigration v) (vActiveConnectionIDLimit v) (vInitialSourceConnectionID v) (vMaxDatagramFrameSize v).
-Definition set_mu v x := View (vMaxIdleTimeout v) (vInitialMaxData v) (vBidiLocal v) (vBidiRemote v) (vUni v) (vMaxBidiStreamNum v) x (vMaxAckDelay v) (vDisableActiveMigration v) (vActiveConnectionIDLimit v) (vInitialSourceConnectionID v) (vMaxDatagramFrameSize v).
-Definition set_ack v x := View (vMaxIdleTimeout v) (vInitialMaxData v) (vBidiLocal v) (vBidiRemote v) (vUni v) (vMaxBidiStreamNum v) (vMaxUniStreamNum v) x (vDisableActiveMigration v) (vActiveConnectionIDLimit v) (vInitialSourceConnectionID v) (vMaxDatagramFrameSize v).
-Definition set_dam v x := View (vMaxIdleTimeout v) (vInitialMaxData v) (vBidiLocal v) (vBidiRemote v) (vUni v) (vMaxBidiStreamNum v) (vMaxUniStreamNum v) (vMaxAckDelay v) x (vActiveConnectionIDLimit v) (vInitialSourceConnectionID v) (vMaxDatagramFrameSize v).
-Definition set_acl v x := View (vMaxIdleTimeout v) (vInitialMaxData v) (vBidiLocal v) (vBidiRemote v) (vUni v) (vMaxBidiStreamNum v) (vMaxUniStreamNum v) (vMaxAckDelay v) (vDisableActiveMigration v) x (vInitialSourceConnectionID v) (vMaxDatagramFrameSize v).
-Definition set_scid v x := View (vMaxIdleTimeout v) (vInitialMaxData v) (vBidiLocal v) (vBidiRemote v) (vUni v) (vMaxBidiStreamNum v) (vMaxUniStreamNum v) (vMaxAckDelay v) (vDisableActiveMigration v) (vActiveConnectionIDLimit v) x (vMaxDatagramFrameSize v).
-Definition set_dg v x := View (vMaxIdleTimeout v) (vInitialMaxData v) (vBidiLocal v) (vBidiRemote v) (vUni v) (vMaxBidiStreamNum v) (vMaxUniStreamNum v) (vMaxAckDelay v) (vDisableActiveMigration v) (vActiveConnectionIDLimit v) (vInitialSourceConnectionID v) x.
+Definition set_idle v x := View x (vInitialMaxData v) (vBidiLocal v) (vBidiRemote v) (vUni v) (vMaxBidiStreamNum v) (vMaxUniStreamNum v) (vMaxAckDelay v) (vDisableActiveMigration v) (vActiveConnectionIDLimit v) (vInitialSourceConnectionID v) (vMaxDatagramFrameSize v) (vMaxUDPPayloadSize v) (vAckDelayExponent v).
+Definition set_data v x := View (vMaxIdleTimeout v) x (vBidiLocal v) (vBidiRemote v) (vUni v) (vMaxBidiStreamNum v) (vMaxUniStreamNum v) (vMaxAckDelay v) (vDisableActiveMigration v) (vActiveConnectionIDLimit v) (vInitialSourceConnectionID v) (vMaxDatagramFrameSize v) (vMaxUDPPayloadSize v) (vAckDelayExponent v).
+Definition set_bl v x := View (vMaxIdleTimeout v) (vInitialMaxData v) x (vBidiRemote v) (vUni v) (vMaxBidiStreamNum v) (vMaxUniStreamNum v) (vMaxAckDelay v) (vDisableActiveMigration v) (vActiveConnectionIDLimit v) (vInitialSourceConnectionID v) (vMaxDatagramFrameSize v) (vMaxUDPPayloadSize v) (vAckDelayExponent v).
+Definition set_br v x := View (vMaxIdleTimeout v) (vInitialMaxData v) (vBidiLocal v) x (vUni v) (vMaxBidiStreamNum v) (vMaxUniStreamNum v) (vMaxAckDelay v) (vDisableActiveMigration v) (vActiveConnectionIDLimit v) (vInitialSourceConnectionID v) (vMaxDatagramFrameSize v) (vMaxUDPPayloadSize v) (vAckDelayExponent v).
+Definition set_uni v x := View (vMaxIdleTimeout v) (vInitialMaxData v) (vBidiLocal v) (vBidiRemote v) x (vMaxBidiStreamNum v) (vMaxUniStreamNum v) (vMaxAckDelay v) (vDisableActiveMigration v) (vActiveConnectionIDLimit v) (vInitialSourceConnectionID v) (vMaxDatagramFrameSize v) (vMaxUDPPayloadSize v) (vAckDelayExponent v).
+Definition set_mb v x := View (vMaxIdleTimeout v) (vInitialMaxData v) (vBidiLocal v) (vBidiRemote v) (vUni v) x (vMaxUniStreamNum v) (vMaxAckDelay v) (vDisableActiveMigration v) (vActiveConnectionIDLimit v) (vInitialSourceConnectionID v) (vMaxDatagramFrameSize v) (vMaxUDPPayloadSize v) (vAckDelayExponent v).
+Definition set_mu v x := View (vMaxIdleTimeout v) (vInitialMaxData v) (vBidiLocal v) (vBidiRemote v) (vUni v) (vMaxBidiStreamNum v) x (vMaxAckDelay v) (vDisableActiveMigration v) (vActiveConnectionIDLimit v) (vInitialSourceConnectionID v) (vMaxDatagramFrameSize v) (vMaxUDPPayloadSize v) (vAckDelayExponent v).
+Definition set_ack v x := View (vMaxIdleTimeout v) (vInitialMaxData v) (vBidiLocal v) (vBidiRemote v) (vUni v) (vMaxBidiStreamNum v) (vMaxUniStreamNum v) x (vDisableActiveMigration v) (vActiveConnectionIDLimit v) (vInitialSourceConnectionID v) (vMaxDatagramFrameSize v) (vMaxUDPPayloadSize v) (vAckDelayExponent v).
+Definition set_dam v x := View (vMaxIdleTimeout v) (vInitialMaxData v) (vBidiLocal v) (vBidiRemote v) (vUni v) (vMaxBidiStreamNum v) (vMaxUniStreamNum v) (vMaxAckDelay v) x (vActiveConnectionIDLimit v) (vInitialSourceConnectionID v) (vMaxDatagramFrameSize v) (vMaxUDPPayloadSize v) (vAckDelayExponent v).
+Definition set_acl v x := View (vMaxIdleTimeout v) (vInitialMaxData v) (vBidiLocal v) (vBidiRemote v) (vUni v) (vMaxBidiStreamNum v) (vMaxUniStreamNum v) (vMaxAckDelay v) (vDisableActiveMigration v) x (vInitialSourceConnectionID v) (vMaxDatagramFrameSize v) (vMaxUDPPayloadSize v) (vAckDelayExponent v).
+Definition set_scid v x := View (vMaxIdleTimeout v) (vInitialMaxData v) (vBidiLocal v) (vBidiRemote v) (vUni v) (vMaxBidiStreamNum v) (vMaxUniStreamNum v) (vMaxAckDelay v) (vDisableActiveMigration v) (vActiveConnectionIDLimit v) x (vMaxDatagramFrameSize v) (vMaxUDPPayloadSize v) (vAckDelayExponent v).
+Definition set_dg v x := View (vMaxIdleTimeout v) (vInitialMaxData v) (vBidiLocal v) (vBidiRemote v) (vUni v) (vMaxBidiStreamNum v) (vMaxUniStreamNum v) (vMaxAckDelay v) (vDisableActiveMigration v) (vActiveConnectionIDLimit v) (vInitialSourceConnectionID v) x (vMaxUDPPayloadSize v) (vAckDelayExponent v).
+Definition set_udp v x := View (vMaxIdleTimeout v) (vInitialMaxData v) (vBidiLocal v) (vBidiRemote v) (vUni v) (vMaxBidiStreamNum v) (vMaxUniStreamNum v) (vMaxAckDelay v) (vDisableActiveMigration v) (vActiveConnectionIDLimit v) (vInitialSourceConnectionID v) (vMaxDatagramFrameSize v) x (vAckDelayExponent v).
+Definition set_ade v x := View (vMaxIdleTimeout v) (vInitialMaxData v) (vBidiLocal v) (vBidiRemote v) (vUni v) (vMaxBidiStreamNum v) (vMaxUniStreamNum v) (vMaxAckDelay v) (vDisableActiveMigration v) (vActiveConnectionIDLimit v) (vInitialSourceConnectionID v) (vMaxDatagramFrameSize v) (vMaxUDPPayloadSize v) x.
 
 (* one iteration of the loop: the new view and what quicparams[pIdx] holds afterwards.
-   None = the Go code panics (failed type assertion `param.(tls.X)` on a parameter that
-   carries X's id but is not an X, or ParseConnectionID on more than 20 bytes). *)
+   None = the Go code panics: only ParseConnectionID on a typed source connection ID of more
+   than 20 bytes (there is no type assertion on the integer parameters any more). *)
 Definition pop_step (v : view) (p : param) : option (view * param) :=
   let id := pid p in
   let num (set : view -> Z -> view) (f : Z -> Z) : option (view * param) :=
-      if ptyped p then Some (set v (f (tval p)), p) else None in
+      if is_single (pval p) then Some (set v (f (sval (pval p))), p) else Some (v, p) in
   if id =? tpid_maxIdleTimeout then num set_idle millis
+  else if id =? tpid_maxUDPPayloadSize then num set_udp (fun x => x)
   else if id =? tpid_initialMaxData then num set_data (fun x => x)
   else if id =? tpid_initialMaxStreamDataBidiLocal then num set_bl (fun x => x)
   else if id =? tpid_initialMaxStreamDataBidiRemote then num set_br (fun x => x)
   else if id =? tpid_initialMaxStreamDataUni then num set_uni (fun x => x)
   else if id =? tpid_initialMaxStreamsBidi then num set_mb (fun x => x)
   else if id =? tpid_initialMaxStreamsUni then num set_mu (fun x => x)
+  else if id =? tpid_ackDelayExponent then num set_ade (fun x => Z.min x 255)
   else if id =? tpid_maxAckDelay then num set_ack millis
   else if id =? tpid_disableActiveMigration then Some (set_dam v true, p)
   else if id =? tpid_activeConnectionIDLimit then num set_acl (fun x => x)
@@ -209,8 +223,12 @@ Definition populate (v : view) (ps : list param) : option (view * list param * l
   | None => None
   end.
 
-(* wire.TransportParams{InitialSourceConnectionID: srcConnID} *)
-Definition init_view (scid : list Z) : view := View 0 0 0 0 0 0 0 0 false 0 scid 0.
+(* wire.TransportParams{InitialSourceConnectionID: srcConnID} after the five assignments
+   PopulateFromUQUIC starts with: MaxAckDelay, ActiveConnectionIDLimit, MaxDatagramFrameSize,
+   MaxUDPPayloadSize and AckDelayExponent hold the protocol defaults *)
+Definition init_view (scid : list Z) : view :=
+  View 0 0 0 0 0 0 0 uspec_DefaultMaxAckDelayNs false uspec_DefaultActiveConnectionIDLimit scid
+       uspec_InvalidByteCount uspec_MaxByteCount uspec_DefaultAckDelayExponent.
 
 (** ** u_connection.go:110-140: what one dial does to the extension's list *)
 Definition dial_list (sup : list Z) (randomize : bool) (js : list nat) (ps : list param) : list param :=
